@@ -200,6 +200,11 @@ Proof.
       f_equal. apply lstate_eq; xproj; try reflexivity.
       * rewrite xmul_add_distr_l by assumption. reflexivity.
       * apply bupd_scale; assumption.
+    + destruct v; try discriminate. destruct (Nat.eqb _ _); [|discriminate].
+      intro E; inversion E; subst; clear E; xproj.
+      f_equal. apply lstate_eq; xproj; try reflexivity.
+      * rewrite xmul_add_distr_l by assumption. reflexivity.
+      * apply bupd_scale; assumption.
 Qed.
 
 (* ================= trees ================= *)
@@ -380,7 +385,7 @@ Proof.
     rewrite (xmul_swap_fin f x w Hf Hw).
     pose proof (pos_scale f (xmul x w) Hf) as P. unfold pos in P. cbn [Xq nltb nzero] in P.
     rewrite P. destruct (xltb (XF 0) (xmul x w)); reflexivity.
-  - destruct v as [x|s|b|]; try reflexivity. destruct (nisnan x); reflexivity.
+  - destruct v as [x|s|b| |l]; try reflexivity. destruct (nisnan x); reflexivity.
   - cbn [rscale]. rewrite map_map. reflexivity.
   - cbn [rscale]. rewrite map_map. reflexivity.
   - cbn [rscale]. rewrite map_map. reflexivity.
